@@ -513,7 +513,7 @@ fn main() {
     let thorough = std::env::var("VERIF_TIER").map(|t| t == "thorough").unwrap_or(false);
     let mut rng = Rng::new(seed_from_env());
     let pre = preamble();
-    let mut o = Out { sh: Shards::new(&out, &pre, "pcase", "verdicts", if thorough { 100 } else { 150 }), sum: Summary::default(), seen: Default::default(), distinct: 0 };
+    let mut o = Out { sh: Shards::new(&out, &pre, "pcase", "verdicts", if thorough { 100 } else { 260 }), sum: Summary::default(), seen: Default::default(), distinct: 0 };
     let (p6, p3) = (preds6(), preds3());
     let (hm, hw) = (hops_main(), hops_wild());
     let r = &mut rng;
@@ -599,7 +599,7 @@ fn main() {
     if thorough {
         for e in exprs_upto(&p6, 2) { pats.push(vec![e]); }
         let mut d3 = exprs_upto(&p3[..2], 3);
-        r.shuffle(&mut d3); d3.truncate(2 * n);
+        r.shuffle(&mut d3); d3.truncate(n);
         for e in d3 { pats.push(vec![e]); }
     } else {
         let mut d3 = exprs_upto(&p3[..2], 3);
